@@ -129,7 +129,7 @@ pub fn run(ctx: &mut Ctx) {
     }
     let tier = ctx.tier;
     let seed = ctx.seed;
-    let n = if ctx.slow_tool { 40 } else { tier.pick(30_000u64, 1_500_000u64) };
+    let n = if ctx.slow_tool { 40 } else { tier.pick(300_000u64, 20_000_000u64) };
     for idx in 0..n {
         if !ctx.take("foreign", idx) {
             continue;
@@ -183,14 +183,14 @@ pub fn run(ctx: &mut Ctx) {
             }
         }
     }
-    let ns = if ctx.slow_tool { 20 } else { tier.pick(10_000u64, 400_000u64) };
+    let ns = if ctx.slow_tool { 20 } else { tier.pick(100_000u64, 4_000_000u64) };
     for idx in 0..ns {
         if ctx.take("stretch", idx) {
             let b = super::c05::stretched(seed, idx);
             check_bytes(ctx, "stretch", idx, &b);
         }
     }
-    let per_type = if ctx.slow_tool { 1 } else { tier.pick(4u64, 30u64) };
+    let per_type = if ctx.slow_tool { 1 } else { tier.pick(20u64, 200u64) };
     for ci in 0..42 * per_type {
         if !ctx.take("corpus", ci) {
             continue;
@@ -210,7 +210,7 @@ pub fn run(ctx: &mut Ctx) {
         }
     }
     let samples = sample_file_messages();
-    let nh = if ctx.slow_tool { 20 } else { tier.pick(150_000u64, 6_000_000u64) };
+    let nh = if ctx.slow_tool { 20 } else { tier.pick(1_000_000u64, 60_000_000u64) };
     for idx in 0..nh {
         if !ctx.take("havoc", idx) {
             continue;
